@@ -26,13 +26,20 @@ inductive Fail where
   | err | panic | timeout
   deriving DecidableEq, Repr
 
+instance {ε α : Type} [DecidableEq ε] [DecidableEq α] : DecidableEq (Except ε α) := fun a b =>
+  match a, b with
+  | .ok x, .ok y => if h : x = y then isTrue (by rw [h]) else isFalse (fun e => h (by cases e; rfl))
+  | .error x, .error y => if h : x = y then isTrue (by rw [h]) else isFalse (fun e => h (by cases e; rfl))
+  | .ok _, .error _ => isFalse (fun e => by cases e)
+  | .error _, .ok _ => isFalse (fun e => by cases e)
+
 /-- A rule at the moment the logger executes: outcome of its trigger, the entry name of its
 extractor, and the value the extractor reads (`none` = source state missing ⇒ `null`). -/
 structure Rule (N V : Type) where
   trig : Trig
   name : N
   value : Option V
-  deriving Repr
+  deriving Repr, DecidableEq
 
 abbrev Entry (N V : Type) := N × Option V
 abbrev Step (N V : Type) := List (Entry N V)
@@ -239,7 +246,7 @@ inductive TrigSpec where
   | every (n : Nat)               -- `EveryN::iterations(n)`
   | script (rest : List Trig)     -- harness condition replaying a script, `skip` when exhausted
   | neg (t : TrigSpec)            -- `Not::new(t)`
-  deriving Repr
+  deriving Repr, DecidableEq
 
 inductive Src where
   | x | iter | const (c : Nat)
@@ -253,12 +260,12 @@ inductive ExtSpec where
   | xId          -- `IdLens::<X>::entry()`
   | xVal         -- `ValueOf::<X>::entry()`           (same entry name)
   | named (k : Nat) (src : Src)   -- harness extractor with entry name `n<k>`
-  deriving Repr
+  deriving Repr, DecidableEq
 
 structure RuleSt where
   trig : TrigSpec
   ext : ExtSpec
-  deriving Repr
+  deriving Repr, DecidableEq
 
 /-- One registry level: the loop counter and the custom state `X`, if inserted at this level. -/
 structure Level where
@@ -335,7 +342,7 @@ structure St where
   rules : Option (List RuleSt)     -- the `LogConfig`, if configured
   log : Log String Nat
   trace : List (List (Rule String Nat) × Option Nat)   -- ghost: the logger executions so far
-  deriving Repr
+  deriving Repr, DecidableEq
 
 def setX (v : Nat) : Env → Env
   | [] => []
@@ -415,6 +422,15 @@ def wantStep (e : List (Rule String Nat) × Option Nat) : Option (Step String Na
   match e.2 with
   | some it => specStep iterName e.1 it
   | none => let es := dedup (fired e.1); if es.isEmpty then none else some es
+
+/-- The property's predicate on the outcome of one logger execution whose triggers do not fail: the
+run goes on, and the log has grown by exactly the step the property demands (by nothing if no
+trigger fired). -/
+def execHolds (rules : List (Rule String Nat)) (it : Option Nat) (log : Log String Nat)
+    (out : Except Fail (Log String Nat)) : Bool :=
+  match out with
+  | .ok log' => log' == log ++ (wantStep (rules, it)).toList
+  | .error _ => false
 
 /-! ### Wire format -/
 open MahfModel Sexp
